@@ -13,6 +13,7 @@ import (
 	"errors"
 	"fmt"
 	"math/rand"
+	"runtime/debug"
 	"strconv"
 	"strings"
 	"sync"
@@ -298,18 +299,6 @@ func c02HasMarker(x *c02Node) bool {
 	return false
 }
 
-func c02HasBase(x *c02Node) bool {
-	if x.kind == 'b' {
-		return true
-	}
-	for _, k := range x.kids {
-		if c02HasBase(k) {
-			return true
-		}
-	}
-	return false
-}
-
 // c02ToLoc assembles the structure for a tree directly, in the convention the
 // code uses: the Complement flag on a node means complement of that node; a
 // join is Join plus SubLocations; a leaf is Start (0-based) .. End
@@ -388,97 +377,85 @@ func c02GetSequence(parent string, loc poly.Location) string {
 	return seq.Features[len(seq.Features)-1].GetSequence()
 }
 
-// parse/post/eval on one expression; "" when the clause holds.
-func c02ParseEvalProblem(parent string, x *c02Node) string {
+// c02ParseCheck runs parseLocation once on the printed expression and judges
+// both parser clauses. evalProblem is "" when post/eval holds; the partial
+// clause is evaluable only where the parser returns a structure with the same
+// number of leaves as the text (anything else is a post/eval failure).
+// Problem texts are short unless detail is set.
+func c02ParseCheck(parent string, x *c02Node, detail bool) (evalProblem string, partialEvaluable bool, partialProblem string) {
 	text := c02Print(x)
 	want, err := c02Eval(parent, text)
 	if err != nil {
-		return "HARNESS: oracle rejects its own text " + text + ": " + err.Error()
+		return "HARNESS: oracle rejects its own text " + text + ": " + err.Error(), false, ""
 	}
 	var loc poly.Location
 	if p := c02Try(func() { loc = parseLocation(text) }); p != "" {
-		return "parseLocation: " + p
+		return "parseLocation: " + p, false, ""
+	}
+	wantP := c02Partials(x, nil)
+	gotP := c02LocPartials(loc, nil)
+	if len(gotP) == len(wantP) {
+		partialEvaluable = true
+		if !c02SamePartials(gotP, wantP) {
+			partialProblem = "partial flags at the leaves " + c02PartialString(gotP) + ", markers in the text " + c02PartialString(wantP)
+		}
 	}
 	var got string
 	if p := c02Try(func() { got = c02GetSequence(parent, loc) }); p != "" {
-		return "GetSequence on the parsed location " + c02LocString(loc) + ": " + p
+		evalProblem = "GetSequence on the parsed location: " + p
+		if detail {
+			evalProblem += "; parsed as " + c02LocString(loc)
+		}
+		return
 	}
 	if got != want {
-		back := ""
-		c02Try(func() { back = BuildLocationString(loc) })
-		return "GetSequence = " + c02Clip(got) + ", INSDC reading = " + c02Clip(want) + "; parsed as " + c02LocString(loc) + ", which prints back as " + c02Clip(back)
+		evalProblem = "differs"
+		if detail {
+			back := ""
+			c02Try(func() { back = BuildLocationString(loc) })
+			evalProblem = "GetSequence = " + c02Clip(got) + ", INSDC reading = " + c02Clip(want) + "; parsed as " + c02LocString(loc) + ", which prints back as " + c02Clip(back)
+		}
 	}
-	return ""
+	return
 }
 
-// parse/post/partial; evaluable only where the parser returns a structure with
-// the same number of leaves as the text (anything else is a post/eval failure).
-func c02ParsePartialProblem(parent string, x *c02Node) (problem string, evaluable bool) {
-	text := c02Print(x)
-	var loc poly.Location
-	if p := c02Try(func() { loc = parseLocation(text) }); p != "" {
-		return "", false
-	}
-	want := c02Partials(x, nil)
-	got := c02LocPartials(loc, nil)
-	if len(got) != len(want) {
-		return "", false
-	}
-	if !c02SamePartials(got, want) {
-		return "partial flags at the leaves " + c02PartialString(got) + ", markers in the text " + c02PartialString(want), true
-	}
-	return "", true
-}
-
-// getFeatureSequence/post/eval-structure.
-func c02StructEvalProblem(parent string, x *c02Node) string {
+// c02StructCheck judges getFeatureSequence/post/eval-structure and
+// BuildLocationString/post/insdc on the structure assembled for x.
+func c02StructCheck(parent string, x *c02Node) (representable bool, evalProblem, buildProblem string) {
 	loc, ok := c02ToLoc(x)
 	if !ok {
-		return ""
+		return false, "", ""
 	}
 	want, err := c02EvalNode(parent, x)
 	if err != nil {
-		return "HARNESS: " + err.Error()
+		return true, "HARNESS: " + err.Error(), ""
 	}
 	var got string
 	if p := c02Try(func() { got = c02GetSequence(parent, loc) }); p != "" {
-		return "GetSequence: " + p
+		evalProblem = "GetSequence: " + p
+	} else if got != want {
+		evalProblem = "GetSequence = " + c02Clip(got) + ", independent evaluation = " + c02Clip(want)
 	}
-	if got != want {
-		return "GetSequence = " + c02Clip(got) + ", independent evaluation = " + c02Clip(want)
-	}
-	return ""
-}
 
-// BuildLocationString/post/insdc.
-func c02BuildProblem(parent string, x *c02Node) string {
-	loc, ok := c02ToLoc(x)
-	if !ok {
-		return ""
-	}
-	want, err := c02EvalNode(parent, x)
-	if err != nil {
-		return "HARNESS: " + err.Error()
-	}
 	var text string
 	if p := c02Try(func() { text = BuildLocationString(loc) }); p != "" {
-		return "BuildLocationString: " + p
+		return true, evalProblem, "BuildLocationString: " + p
 	}
 	back, err := c02Read(text)
 	if err != nil {
-		return "printed " + c02Clip(text) + " is not INSDC syntax: " + err.Error()
+		return true, evalProblem, "printed " + c02Clip(text) + " is not INSDC syntax: " + err.Error()
 	}
-	got, err := c02EvalNode(parent, back)
+	gotB, err := c02EvalNode(parent, back)
 	if err != nil {
-		return "printed " + c02Clip(text) + " does not denote bases of the parent: " + err.Error()
+		return true, evalProblem, "printed " + c02Clip(text) + " does not denote bases of the parent: " + err.Error()
 	}
-	if got != want {
-		return "printed " + c02Clip(text) + " denotes " + c02Clip(got) + ", structure denotes " + c02Clip(want)
+	if gotB != want {
+		return true, evalProblem, "printed " + c02Clip(text) + " denotes " + c02Clip(gotB) + ", structure denotes " + c02Clip(want)
 	}
 	if gp, wp := c02Partials(back, nil), c02Partials(x, nil); !c02SamePartials(gp, wp) {
-		return "printed " + c02Clip(text) + " has partial ends " + c02PartialString(gp) + ", structure has " + c02PartialString(wp)
+		return true, evalProblem, "printed " + c02Clip(text) + " has partial ends " + c02PartialString(gp) + ", structure has " + c02PartialString(wp)
 	}
-	return ""
+	return true, evalProblem, ""
 }
 
 func c02Clip(s string) string {
@@ -560,11 +537,30 @@ type c02Runs struct {
 	parseEval, parsePartial, structEval, build *verifRun
 	harness                                    sync.Once
 	harnessMsg                                 string
+	mu                                         sync.Mutex
+	memoParent                                 string
+	memo                                       sync.Map
+	count                                      map[string]int
 }
 
-func (r *c02Runs) report(v *verifRun, parent string, x *c02Node, problem func(*c02Node) string) {
-	mins := c02Minimal(x, func(y *c02Node) bool { return problem(y) != "" }, nil)
-	full := c02Print(x)
+// report classifies a failing expression by its smallest failing parts and
+// records one failure per class among them. problem(y, detail) is the clause's
+// verdict on a sub-expression.
+func (r *c02Runs) report(v *verifRun, parent string, x *c02Node, problem func(*c02Node, bool) string) {
+	mins := c02Minimal(x, func(y *c02Node) bool {
+		// verdicts on small parts recur throughout the exhaustive part: remember them
+		if parent != r.memoParent || y == x || len(c02Leaves(y, nil)) > 3 {
+			return problem(y, false) != ""
+		}
+		k := v.Clause[len(v.Clause)-4:] + c02Print(y)
+		if bad, ok := r.memo.Load(k); ok {
+			return bad.(bool)
+		}
+		bad := problem(y, false) != ""
+		r.memo.Store(k, bad)
+		return bad
+	}, nil)
+	full := ""
 	seen := map[string]bool{}
 	for _, m := range mins {
 		class := c02Shape(m)
@@ -572,18 +568,33 @@ func (r *c02Runs) report(v *verifRun, parent string, x *c02Node, problem func(*c
 			continue
 		}
 		seen[class] = true
-		p := problem(m)
+		if r.saturated(v, class) {
+			continue
+		}
+		p := problem(m, true)
 		if strings.HasPrefix(p, "HARNESS") {
 			r.harness.Do(func() { r.harnessMsg = p })
 			continue
 		}
-		in := c02Print(m)
-		detail := p
-		if in != full {
-			detail += " (smallest failing part of " + c02Clip(full) + ")"
+		if full == "" {
+			full = c02Print(x)
 		}
-		v.Fail(class, "parent="+c02Clip(parent)+" location="+in, detail)
+		in := c02Print(m)
+		if in != full {
+			p += " (smallest failing part of " + c02Clip(full) + ")"
+		}
+		v.Fail(class, "parent="+c02Clip(parent)+" location="+in, p)
 	}
+}
+
+// saturated says whether enough examples of a class are already recorded (the
+// record keeps three); it only saves the work of wording further ones.
+func (r *c02Runs) saturated(v *verifRun, class string) bool {
+	k := v.Clause + "|" + class
+	r.mu.Lock()
+	defer r.mu.Unlock()
+	r.count[k]++
+	return r.count[k] > 3
 }
 
 // check runs the four clauses on one expression.
@@ -596,29 +607,26 @@ func (r *c02Runs) check(parent string, x *c02Node) {
 	ops := c02Ops(x)
 	marker := c02HasMarker(x)
 
+	evalP, partialOK, partialP := c02ParseCheck(parent, x, false)
 	r.parseEval.Case(key, ops > 0 || marker || x.kind == 'b')
-	if c02ParseEvalProblem(parent, x) != "" {
-		r.report(r.parseEval, parent, x, func(y *c02Node) string { return c02ParseEvalProblem(parent, y) })
+	if evalP != "" {
+		r.report(r.parseEval, parent, x, func(y *c02Node, d bool) string { p, _, _ := c02ParseCheck(parent, y, d); return p })
 	}
-
-	if p, ok := c02ParsePartialProblem(parent, x); ok {
+	if partialOK {
 		r.parsePartial.Case(key, marker)
-		if p != "" {
-			r.report(r.parsePartial, parent, x, func(y *c02Node) string {
-				q, _ := c02ParsePartialProblem(parent, y)
-				return q
-			})
+		if partialP != "" {
+			r.report(r.parsePartial, parent, x, func(y *c02Node, d bool) string { _, _, p := c02ParseCheck(parent, y, d); return p })
 		}
 	}
 
-	if _, ok := c02ToLoc(x); ok {
+	if ok, evalS, buildS := c02StructCheck(parent, x); ok {
 		r.structEval.Case(key, ops > 0)
-		if c02StructEvalProblem(parent, x) != "" {
-			r.report(r.structEval, parent, x, func(y *c02Node) string { return c02StructEvalProblem(parent, y) })
+		if evalS != "" {
+			r.report(r.structEval, parent, x, func(y *c02Node, d bool) string { _, p, _ := c02StructCheck(parent, y); return p })
 		}
 		r.build.Case(key, ops > 0 || marker)
-		if c02BuildProblem(parent, x) != "" {
-			r.report(r.build, parent, x, func(y *c02Node) string { return c02BuildProblem(parent, y) })
+		if buildS != "" {
+			r.report(r.build, parent, x, func(y *c02Node, d bool) string { _, _, p := c02StructCheck(parent, y); return p })
 		}
 	}
 }
@@ -817,38 +825,39 @@ func c02RandLen(rng *rand.Rand) int {
 
 func TestVerifC02(t *testing.T) {
 	const parent6 = "ACCTGA" // no span of two or more bases equals the reverse complement of any span (checked below)
-	capCases := 30000
+	// the distinct-case maps are large and long-lived; collect less often
+	defer debug.SetGCPercent(debug.SetGCPercent(400))
+	capCases := 20000
 	nRandom := 40000
 	if verifThorough() {
-		capCases = 600000
+		capCases = 750000
 		nRandom = 1500000
 	}
 
 	full := c02AlphaFull(6, true)   // 90 leaf forms: 6 single bases, 21 spans x {none,<,>,<>}
 	plain := c02AlphaFull(6, false) // 27 leaf forms without markers
 	red12 := c02AlphaFromText(c02Reduced...)
-	red6 := red12[:6]
-	red4 := red12[:4]
-	alphas := [][]c02Leaf{full, plain, red12, red6, red4}
+	alphas := [][]c02Leaf{full, plain, red12, red12[:8], red12[:6], red12[:4]}
 
 	domain := func(what string) string {
-		return what + "; EXHAUSTIVE PART on the 6-base parent " + parent6 + ": every expression shape with at most three operators " +
-			"(complement, join of 2..3 operands, any nesting; 166 shapes), leaves filled from the largest of these alphabets whose product over the shape's leaves is <= " +
-			strconv.Itoa(capCases) + ": all 90 leaf forms (6 single bases, 21 spans n..m with 1<=n<=m<=6, each span with no marker, <, >, <>), " +
-			"else the 27 forms without markers plus a second pass over a marker-bearing reduced set, else the first 12 / 6 / 4 of {" + strings.Join(c02Reduced, " ") +
-			"}; so expressions with up to " + c02FullUpTo(capCases) + " leaves are complete, larger ones are complete in shape and restricted in leaf values, markers there on a sampled basis; " +
-			"RANDOM PART: " + strconv.Itoa(nRandom) + " seeded trees, operators nested to depth 4, joins of 2..6 operands, single bases, spans and optional < > markers, " +
-			"on random ACGT parents of length 1..2000 (lengths 1 and 2000 included); joins of 4..6 operands occur only in the random part"
+		return what + ". Exhaustive part, 6-base parent " + parent6 + ": all 166 expression shapes with <= 3 operators (complement, join of 2..3 operands, any nesting); " +
+			"leaves from all 90 forms (6 single bases; 21 spans n..m, 1<=n<=m<=6, each with no marker, <, >, <>) while 90^leaves <= " + strconv.Itoa(capCases) +
+			", else the 27 unmarked forms (27^leaves <= " + strconv.Itoa(capCases) + ") plus a pass over a marked reduced set, else the first 12/8/6/4 of {" + strings.Join(c02Reduced, " ") +
+			"}: complete up to " + c02FullUpTo(capCases) + " leaves, beyond that complete in shape, restricted in leaf values, markers sampled. " +
+			"Random part: " + strconv.Itoa(nRandom) + " seeded trees, operators nested to depth 4, joins of 2..6 operands, single bases, spans, optional markers, " +
+			"ACGT parents of length 1..2000 (joins of 4..6 operands only here)"
 	}
 	r := &c02Runs{
+		count:      map[string]int{},
+		memoParent: parent6,
 		parseEval: newVerifRun("C02", "io/genbank.parseLocation/post/eval",
-			domain("text t printed from the independent model; GetSequence of a feature with SequenceLocation = parseLocation(t), added with AddFeature to a Sequence holding the parent, must equal c02Eval(parent, t) without a panic; non-trivial = has an operator, a marker or a single base")),
+			domain("GetSequence of a feature with SequenceLocation = parseLocation(t), added with AddFeature to a Sequence holding the parent, equals the independent INSDC evaluation c02Eval(parent, t), no panic; non-trivial = t has an operator, a marker or a single base")),
 		parsePartial: newVerifRun("C02", "io/genbank.parseLocation/post/partial",
-			domain("the FivePrimePartial/ThreePrimePartial flags at the leaves of parseLocation(t), in order, must equal the < and > markers of the spans of t; evaluated where parseLocation returns a structure with as many leaves as t (panics and lost operands are counted under post/eval); non-trivial = t has a marker")),
+			domain("FivePrimePartial/ThreePrimePartial at the leaves of parseLocation(t), in order, equal the < and > markers of the spans of t; evaluated where parseLocation returns a structure with as many leaves as t (panics and lost operands count under post/eval only); non-trivial = t has a marker")),
 		structEval: newVerifRun("C02", "poly.getFeatureSequence/post/eval-structure",
-			domain("structure assembled directly as poly.Location (Complement flag = complement of that node, Join + SubLocations, leaf Start 0-based .. End exclusive, partial flags on leaves); GetSequence after AddFeature must equal the independent evaluation; complement applied directly to a complement is not expressible in that convention and is left out; non-trivial = has an operator")),
+			domain("structure assembled directly as poly.Location (Complement flag = complement of that node, Join + SubLocations, leaf Start 0-based .. End exclusive, partial flags on leaves); GetSequence after AddFeature equals the independent evaluation; complement applied directly to a complement has no form in that convention and is left out; non-trivial = has an operator")),
 		build: newVerifRun("C02", "io/genbank.BuildLocationString/post/insdc",
-			domain("BuildLocationString of the same structures must be accepted by the strict INSDC reader and denote the same bases and the same partial ends (< and > per span); complement of complement left out as above; non-trivial = has an operator or a marker")),
+			domain("BuildLocationString of the same structures is accepted by the strict independent INSDC reader and denotes the same bases and the same partial ends (< and > per span); complement of complement left out as above; non-trivial = has an operator or a marker")),
 	}
 	for _, v := range []*verifRun{r.parseEval, r.parsePartial, r.structEval, r.build} {
 		v.Sampled()
@@ -903,6 +912,12 @@ func TestVerifC02(t *testing.T) {
 			}
 			for _, a := range use {
 				for f := range a {
+					if ops <= 1 && k <= 2 {
+						// smallest expressions first and in a fixed order, so that the
+						// recorded examples of each class are the smallest ones
+						c02RunJob(r, parent6, c02Job{s, a, f})
+						continue
+					}
 					jobs = append(jobs, c02Job{s, a, f})
 				}
 			}
